@@ -466,3 +466,179 @@ Qed.
 
 Lemma deye_as_dconstdiag b n : deye b n == dconstdiag (dones b 1 1) n.
 Proof. apply BTeq_intro; reflexivity. Qed.
+
+(* ---- algebra of the broadcasting sum ------------------------------------------------------------------------------------ *)
+
+Lemma dadd_comm A B : bcompat (bsh A) (bsh B) = true -> nr A = nr B -> nc A = nc B -> dadd A B == dadd B A.
+Proof.
+  intros HC Hr Hc. apply BTeq_intro; simpl; try congruence; [apply bcast_comm; assumption|].
+  intros I i j _ _ _. ring.
+Qed.
+
+Lemma dadd_assoc A B C :
+  bcompat (bsh A) (bsh B) = true -> bcompat (bsh A) (bsh C) = true -> bcompat (bsh B) (bsh C) = true ->
+  dadd (dadd A B) C == dadd A (dadd B C).
+Proof.
+  intros HAB HAC HBC.
+  assert (HABC : bcompat (bcast (bsh A) (bsh B)) (bsh C) = true) by (apply bcompat_bcast_l; auto).
+  apply BTeq_intro; simpl; try reflexivity; [symmetry; apply bcast_assoc|].
+  intros I i j HI Hi Hj.
+  set (BB := bcast (bcast (bsh A) (bsh B)) (bsh C)) in *.
+  assert (SAB : bsub (bcast (bsh A) (bsh B)) BB = true) by (apply bsub_bcast_l; assumption).
+  assert (SC : bsub (bsh C) BB = true) by (apply bsub_bcast_r; assumption).
+  assert (SA : bsub (bsh A) BB = true) by (apply (bsub_trans _ _ _ (bsub_bcast_l _ _ HAB) SAB)).
+  assert (SB : bsub (bsh B) BB = true) by (apply (bsub_trans _ _ _ (bsub_bcast_r _ _ HAB) SAB)).
+  pose proof (bsub_bcast_l _ _ HAB) as SA'. pose proof (bsub_bcast_r _ _ HAB) as SB'.
+  pose proof (bsub_bcast_l _ _ HBC) as SB''. pose proof (bsub_bcast_r _ _ HBC) as SC''.
+  ub. rewrite !bproj_bproj by assumption. ring.
+Qed.
+
+Lemma dadd_dzero_r A b m n : bsub b (bsh A) = true -> dadd A (dzero b m n) == A.
+Proof.
+  intros HS. apply BTeq_intro; simpl; try reflexivity; [apply bcast_sub_r; assumption|].
+  rewrite bcast_sub_r by assumption. intros I i j HI _ _. rewrite bget_in by assumption. ub. ring.
+Qed.
+
+Lemma dadd_dzero_l A b : bsub b (bsh A) = true -> dadd (dzero b (nr A) (nc A)) A == A.
+Proof.
+  intros HS. apply BTeq_intro; simpl; try reflexivity; [apply bsub_bcast_eq; assumption|].
+  rewrite bsub_bcast_eq by assumption. intros I i j HI _ _. rewrite bget_in by assumption. ub. ring.
+Qed.
+
+Lemma fold_bcast_app l1 l2 :
+  fold_right (fun A s => bcast (bsh A) s) [] (l1 ++ l2) =
+  bcast (fold_right (fun A s => bcast (bsh A) s) [] l1) (fold_right (fun A s => bcast (bsh A) s) [] l2).
+Proof.
+  induction l1 as [|A l IH]; simpl; [reflexivity|]. rewrite IH. apply bcast_assoc.
+Qed.
+
+Lemma dsuml_app S1 S2 r c l1 l2 :
+  uniform S1 r c l1 -> uniform S2 r c l2 -> l1 <> [] -> l2 <> [] -> bcompat S1 S2 = true ->
+  dsuml (l1 ++ l2) == dadd (dsuml l1) (dsuml l2).
+Proof.
+  intros U1 U2 N1 N2 HC.
+  pose proof (sum_shape_uniform _ _ _ _ U1 N1) as E1. pose proof (sum_shape_uniform _ _ _ _ U2 N2) as E2.
+  unfold dsuml, dadd. apply BTeq_intro; cbn [bsh nr nc ent].
+  - apply fold_bcast_app.
+  - destruct l1; [congruence|]. reflexivity.
+  - destruct l1; [congruence|]. reflexivity.
+  - intros I i j HI _ _.
+    rewrite map_app, zsuml_app. unfold bget at 3 4. cbn [bsh nr nc ent]. rewrite E1, E2. f_equal.
+    + apply zsuml_map_ext. intros C HC'. unfold uniform in U1. rewrite Forall_forall in U1. destruct (U1 C HC') as (E & _).
+      unfold bget. rewrite E. rewrite bproj_bproj by apply bsub_refl. reflexivity.
+    + apply zsuml_map_ext. intros C HC'. unfold uniform in U2. rewrite Forall_forall in U2. destruct (U2 C HC') as (E & _).
+      unfold bget. rewrite E. rewrite bproj_bproj by apply bsub_refl. reflexivity.
+Qed.
+
+Lemma dconstdiag_dadd c c' n : dconstdiag (dadd c c') n == dadd (dconstdiag c n) (dconstdiag c' n).
+Proof.
+  apply BTeq_intro; simpl; try reflexivity. intros I i j _ _ _. ub. destruct (Nat.eqb i j); ring.
+Qed.
+
+Lemma ddiag_dadd d d' : ddiag (dadd d d') == dadd (ddiag d) (ddiag d').
+Proof.
+  apply BTeq_intro; simpl; try reflexivity. intros I i j _ _ _. ub. destruct (Nat.eqb i j); ring.
+Qed.
+
+Lemma dadd_dexpand_r A B : bsub (bsh B) (bsh A) = true -> dadd A (dexpand (bsh A) B) == dadd A B.
+Proof.
+  intros HS. apply BTeq_intro; simpl; try reflexivity.
+  - rewrite bcast_refl. symmetry. apply bcast_sub_r. assumption.
+  - rewrite bcast_refl. intros I i j HI _ _. f_equal. ub. rewrite bproj_bproj by assumption. reflexivity.
+Qed.
+
+Lemma bcompat_sym_bcast a b c : bcompat a b = true -> bcompat a c = true -> bcompat b c = true -> bcompat a (bcast b c) = true.
+Proof.
+  intros H1 H2 H3. rewrite bcompat_sym. apply bcompat_bcast_l; [assumption|]. split; rewrite bcompat_sym; assumption.
+Qed.
+
+Lemma dadd_swap_r A B C :
+  bcompat (bsh A) (bsh B) = true -> bcompat (bsh A) (bsh C) = true -> bcompat (bsh B) (bsh C) = true ->
+  nr A = nr B -> nc A = nc B -> nr B = nr C -> nc B = nc C ->
+  dadd (dadd A B) C == dadd (dadd A C) B.
+Proof.
+  intros HAB HAC HBC Hr0 Hc0 Hr Hc.
+  eapply BTeq_trans; [apply dadd_assoc; assumption|].
+  assert (H1 : dadd B C == dadd C B) by (apply dadd_comm; assumption).
+  assert (H2 : dadd A (dadd B C) == dadd A (dadd C B)).
+  { apply dadd_eq; [apply BTeq_refl|exact H1| | |]; simpl; try assumption. apply bcompat_sym_bcast; assumption. }
+  eapply BTeq_trans; [exact H2|].
+  apply BTeq_sym. apply dadd_assoc; try assumption. rewrite bcompat_sym. assumption.
+Qed.
+
+(* ---- scaling by a 0-d constant ---------------------------------------------------------------------------------------------- *)
+
+Definition c0 (c : BT) : Z := ent c [] 0%nat 0%nat.
+
+Lemma dscale0_ent A c I i j : bsh c = [] -> inb (bsh A) I -> ent (dscale A c) I i j = ent A I i j * c0 c.
+Proof. intros HC HI. simpl. rewrite bget_in by assumption. unfold bget, c0. rewrite HC. reflexivity. Qed.
+
+Lemma dscale0_shape A c : bsh c = [] -> bsh (dscale A c) = bsh A.
+Proof. intros HC. simpl. rewrite HC. apply bcast_nil_r. Qed.
+
+Ltac sc0 HC := apply BTeq_intro; simpl; rewrite ?HC, ?bcast_nil_r; try reflexivity.
+
+Lemma ddiag_dscale0 d c : bsh c = [] -> ddiag (dscale d c) == dscale (ddiag d) c.
+Proof. intros HC. sc0 HC. intros I i j HI _ _. ub. rewrite HC. destruct (Nat.eqb i j); ring. Qed.
+
+Lemma dconstdiag_dscale0 k n c : bsh c = [] ->
+  dconstdiag (mkBT (bsh k) 1 1 (fun I _ _ => ent k I 0%nat 0%nat * c0 c)) n == dscale (dconstdiag k n) c.
+Proof.
+  intros HC. sc0 HC. intros I i j HI _ _. ub. rewrite HC. rewrite bproj_id by assumption. unfold c0. simpl. destruct (Nat.eqb i j); ring.
+Qed.
+
+Lemma dscale0_eq A A' c : bsh c = [] -> A == A' -> dscale A c == dscale A' c.
+Proof. intros HC HA. apply dscale_eq; [exact HA|]. rewrite HC. destruct (bsh A); reflexivity. Qed.
+
+Lemma dscale0_const A c c' : bsh c = [] -> bsh c' = [] -> c0 c = c0 c' -> dscale A c == dscale A c'.
+Proof.
+  intros H1 H2 HE. apply BTeq_intro; simpl; rewrite ?H1, ?H2; try reflexivity.
+  intros I i j _ _ _. ub. rewrite H1, H2. unfold c0 in HE. simpl. rewrite HE. reflexivity.
+Qed.
+
+Lemma dmm_dscale0_root R s c : bsh s = [] -> bsh c = [] -> c0 s * c0 s = c0 c ->
+  dmm (dscale R s) (dtr (dscale R s)) == dscale (dmm R (dtr R)) c.
+Proof.
+  intros HS HC HE. apply BTeq_intro; simpl; rewrite ?HS, ?HC, ?bcast_nil_r, ?bcast_refl; try reflexivity.
+  intros I i j HI _ _. ub. rewrite HS, HC, ?bcast_nil_r, ?bcast_refl. simpl.
+  rewrite <- zsum_scale_r. apply zsum_ext. intros l _.
+  rewrite !bproj_bproj by apply bsub_refl. unfold c0 in HE. rewrite <- HE. ring.
+Qed.
+
+Lemma dhad_dscale0_l L R c : bsh c = [] -> bcompat (bsh L) (bsh R) = true -> dhad (dscale L c) R == dscale (dhad L R) c.
+Proof.
+  intros HC HB. sc0 HC. intros I i j HI _ _. ub. rewrite HC, ?bcast_nil_r. simpl.
+  rewrite (bproj_bproj _ _ _ (bsub_refl (bsh L))), (bproj_bproj _ _ _ (bsub_bcast_l _ _ HB)), (bproj_bproj _ _ _ (bsub_bcast_r _ _ HB)). ring.
+Qed.
+
+Lemma uniform_map_dscale0 S r c k l : bsh k = [] -> uniform S r c l -> uniform S r c (map (fun A => dscale A k) l).
+Proof.
+  intros HK. induction 1 as [|A l (E1 & E2 & E3) _ IH]; simpl; constructor; [|assumption].
+  repeat split; simpl; try assumption. rewrite HK, bcast_nil_r. assumption.
+Qed.
+
+Lemma dscale0_sumu S r c k l : bsh k = [] -> uniform S r c l ->
+  sumu S r c (map (fun A => dscale A k) l) == dscale (sumu S r c l) k.
+Proof.
+  intros HK HU. apply BTeq_intro; simpl; rewrite ?HK, ?bcast_nil_r; try reflexivity.
+  intros I i j HI _ _. ub. rewrite HK. simpl. rewrite map_map.
+  rewrite (bproj_id S) by assumption.
+  rewrite <- zsuml_scale. apply zsuml_map_ext. intros A HA.
+  unfold uniform in HU. rewrite Forall_forall in HU. destruct (HU A HA) as (E & _).
+  simpl. ub. rewrite HK, E. rewrite bproj_id by assumption. reflexivity.
+Qed.
+
+Lemma dsuml_dscale0 S r c k l l' : bsh k = [] -> uniform S r c l -> l <> [] ->
+  Forall2 (fun A A' => A' == dscale A k) l l' -> dsuml l' == dscale (dsuml l) k.
+Proof.
+  intros HK HU Hl HF.
+  assert (HF' : Forall2 BTeq (map (fun A => dscale A k) l) l').
+  { clear -HF. induction HF; simpl; constructor; [apply BTeq_sym; assumption|assumption]. }
+  assert (Hl' : map (fun A => dscale A k) l <> []) by (destruct l; simpl; congruence).
+  pose proof (uniform_map_dscale0 _ _ _ k _ HK HU) as HU'.
+  eapply BTeq_trans; [apply BTeq_sym; apply (dsuml_eq S r c _ _ HF' HU' Hl')|].
+  eapply BTeq_trans; [apply (dsuml_uniform S r c); assumption|].
+  eapply BTeq_trans; [apply dscale0_sumu; assumption|].
+  apply dscale0_eq; [assumption|]. apply BTeq_sym. apply dsuml_uniform; assumption.
+Qed.
+
